@@ -105,7 +105,7 @@ theorem S_strict {nx : Date → Date} (hg : GoodSucc nx) (date : Date) (hv : dat
   omega
 
 /-- In a strictly increasing sequence, every point of `[S 0, S N)` lies in exactly one `[S k, S (k+1))`. -/
-theorem S_locate {nx : Date → Date} (hg : GoodSucc nx) (date : Date) (hv : date.Valid) (N : Nat)
+theorem S_locate {nx : Date → Date} (date : Date) (N : Nat)
     (x : Int) (h0 : (S nx date 0).ord ≤ x) (hN : x < (S nx date N).ord) :
     ∃ k, k < N ∧ (S nx date k).ord ≤ x ∧ x < (S nx date (k+1)).ord := by
   induction N with
